@@ -88,7 +88,7 @@ func vxReq(method, key, rawQuery string) *http.Request {
 
 func VxC14_API() {
 	k0 := vxStr("k0", vxChoice("k0.len", 3))
-	k1 := vxStr("k1", vxChoice("k1.len", 3))
+	k1 := vxStr("k1", vxChoice("k1.len", 4)) // up to 3 bytes: a complete percent-escape fits
 	v0 := []byte(vxStr("v0", 2))
 	v1 := []byte(vxStr("v1", 3))
 	conn := &vxConn{m: map[string][]byte{}}
